@@ -348,21 +348,47 @@ class TOptional(T):
     def sort(self):
         if self.inner is TInt:
             return OptInt
-        raise Unsupported("Optional of this type has no term representation")
+        return _opt_sort(self.inner)
 
     def wrap(self, t):
-        return VOptional(OptInt.is_none(t), VInt(OptInt.val(t)), self.inner)
+        if self.inner is TInt:
+            return VOptional(OptInt.is_none(t), VInt(OptInt.val(t)), self.inner)
+        S = _opt_sort(self.inner)
+        return VOptional(S.recognizer(0)(t), self.inner.wrap(S.accessor(1, 0)(t)), self.inner)
 
 
-def opt_term(v):
-    """term of sort OptInt for an Optional[int] / int / None value"""
-    if isinstance(v, VOptional) and v.inner is TInt:
-        return z3.If(v.isnone, OptInt.none, OptInt.some(v.val.t))
-    if isinstance(v, VInt):
-        return OptInt.some(v.t)
+_opt_sorts: dict = {}
+
+
+def _opt_sort(inner):
+    """Optional[T] for a T with a term representation: datatype none | some(val)"""
+    s = inner.sort()
+    key = s.name()
+    if key not in _opt_sorts:
+        dt = z3.Datatype("Opt_" + key)
+        dt.declare("none")
+        dt.declare("some", ("val", s))
+        _opt_sorts[key] = dt.create()
+    return _opt_sorts[key]
+
+
+def opt_term(v, ty=None):
+    """term for an Optional[T] / T / None value (T = int unless `ty` says otherwise)"""
+    inner = ty.inner if ty is not None else (v.inner if isinstance(v, VOptional) else TInt)
+    if inner is TInt:
+        if isinstance(v, VOptional) and v.inner is TInt:
+            return z3.If(v.isnone, OptInt.none, OptInt.some(v.val.t))
+        if isinstance(v, VInt):
+            return OptInt.some(v.t)
+        if isinstance(v, VNone):
+            return OptInt.none
+        raise Unsupported(f"cannot store {v.ty} as Optional[int]")
+    S = _opt_sort(inner)
     if isinstance(v, VNone):
-        return OptInt.none
-    raise Unsupported(f"cannot store {v.ty} as Optional[int]")
+        return S.constructor(0)()
+    if isinstance(v, VOptional):
+        return z3.If(v.isnone, S.constructor(0)(), S.constructor(1)(value_term(v.val, inner)))
+    return S.constructor(1)(value_term(v, inner))
 
 
 _tuple_sorts: dict = {}
@@ -399,7 +425,7 @@ def value_term(v, ty):
     if isinstance(ty, TTuple):
         return ty.term(v)
     if isinstance(ty, TOptional):
-        return opt_term(v)
+        return opt_term(v, ty)
     if ty is TFloat and isinstance(v, VInt):
         return z3.FreshConst(Opq, "float")
     if not hasattr(v, "t"):
